@@ -15,10 +15,14 @@
 #include <Bpp/Numeric/Prob/GaussianDiscreteDistribution.h>
 #include <Bpp/Numeric/Prob/ExponentialDiscreteDistribution.h>
 #include <Bpp/Numeric/Prob/BetaDiscreteDistribution.h>
+#include <Bpp/Numeric/Hmm/FullHmmTransitionMatrix.h>
+#include <Bpp/Numeric/AbstractParametrizable.h>
 #include <algorithm>
 #include <cmath>
 #include <memory>
 #include <random>
+#include <csignal>
+#include <unistd.h>
 using namespace bpp; using namespace verif;
 
 static std::vector<RandomTools::VerifDraw> REC;
@@ -48,6 +52,25 @@ static std::vector<size_t> sizes(const Toks& t) { std::vector<size_t> v; for (au
 static std::vector<double> dbls(const Toks& t) { std::vector<double> v; for (auto& s : t) v.push_back(hexToDouble(s)); return v; }
 template<class T> static std::string showI(const std::vector<T>& v) { std::string s; for (auto x : v) s += " " + std::to_string(x); return s; }
 static std::string showD(const std::vector<double>& v) { std::string s; for (auto x : v) s += " " + doubleToHex(x); return s; }
+
+// ---------------------------------------------------------------- a hidden Markov chain with n anonymous states
+struct HState : public virtual Clonable { HState* clone() const override { return new HState(*this); } };
+struct HAlphabet : public virtual HmmStateAlphabet, public AbstractParametrizable {
+  size_t n; HState st;
+  HAlphabet(size_t k) : AbstractParametrizable(""), n(k), st() {}
+  HAlphabet* clone() const override { return new HAlphabet(*this); }
+  const Clonable& getState(size_t) const override { return st; }
+  size_t getNumberOfStates() const override { return n; }
+  bool worksWith(const HmmStateAlphabet& a) const override { return a.getNumberOfStates() == n; }
+};
+static std::unique_ptr<FullHmmTransitionMatrix> makeHmm(size_t n, const std::vector<double>& m) {
+  std::shared_ptr<const HmmStateAlphabet> alph(new HAlphabet(n));
+  std::unique_ptr<FullHmmTransitionMatrix> tm(new FullHmmTransitionMatrix(alph));
+  RowMatrix<double> mat(n, n);
+  for (size_t i = 0; i < n; ++i) for (size_t j = 0; j < n; ++j) mat(i, j) = m[i * n + j];
+  tm->setTransitionProbabilities(mat);
+  return tm;
+}
 
 // ---------------------------------------------------------------- statistics (exploration)
 // Kolmogorov-Smirnov distance between the sample and the library's own cdf
@@ -133,6 +156,17 @@ static std::string opChi2Dist(const Toks& t) {
   const std::string& fam = t[1];
   size_t N = toU(t[2]); size_t ncat = toU(t[3]);
   std::vector<double> p; for (size_t i = 4; i < t.size(); ++i) p.push_back(hexToDouble(t[i]));
+  if (fam == "hmm") {
+    // first state of N chains against the equilibrium frequencies of a fresh object
+    size_t n = ncat;
+    auto tm = makeHmm(n, p), fresh = makeHmm(n, p);
+    std::vector<size_t> cnt(n + 1, 0);
+    for (size_t i = 0; i < N; ++i) { std::vector<size_t> st = tm->sample(2); cnt[st[0] < n ? st[0] : n]++; }
+    std::string s = showI(cnt).substr(1) + " ;";
+    const std::vector<double>& eq = fresh->getEquilibriumFrequencies();
+    for (size_t j = 0; j < n; ++j) s += " " + doubleToHex(eq[j]);
+    return s;
+  }
   std::unique_ptr<DiscreteDistributionInterface> d;
   if (fam == "dGamma") d.reset(new GammaDiscreteDistribution(ncat, p[0], p[1]));
   else if (fam == "dGauss") d.reset(new GaussianDiscreteDistribution(ncat, p[0], p[1]));
@@ -248,6 +282,19 @@ static std::string op(const Toks& t) {
     Recording rec; double x = d.rand();
     return doubleToHex(x) + " ;" + drawsStr();
   }
+  if (o == "hmm") {
+    size_t n = toU(t[1]), size = toU(t[2]); std::vector<double> m = dbls(parts(t, 3).size() > 1 ? parts(t, 3)[1] : Toks());
+    auto tm = makeHmm(n, m), fresh = makeHmm(n, m);
+    std::vector<size_t> st;
+    std::string d;
+    { Recording rec; st = tm->sample(size); d = drawsStr(); }
+    std::string s = showI(st) + " ;";
+    const Matrix<double>& pij = tm->getPij();
+    for (size_t i = 0; i < n; ++i) for (size_t j = 0; j < n; ++j) s += " " + doubleToHex(pij(i, j));
+    s += " ;" + showD(tm->getEquilibriumFrequencies());      // what sample() used (the flag is up to date after sample)
+    s += " ;" + showD(fresh->getEquilibriumFrequencies());   // computed by an object nobody has queried yet
+    return s + " ;" + d;
+  }
   if (o == "rcont2") {
     auto p = parts(t, 1); std::vector<size_t> r = sizes(p[0]); std::vector<size_t> c = sizes(p.size() > 1 ? p[1] : Toks());
     ContingencyTableGenerator g(r, c);
@@ -271,10 +318,17 @@ static std::string op(const Toks& t) {
   return "bad-op";
 }
 
+// an operation that does not come back within OP_TIMEOUT seconds answers `hang` and ends the process
+// (check.py then re-runs the remaining cases): the repaired code never needs it; the unrepaired rcont2 did
+static const unsigned OP_TIMEOUT = 5;
+static void onAlarm(int) { std::cout << "hang" << std::endl; _exit(3); }
+
 int main() {
+  std::signal(SIGALRM, onAlarm);
   return runLoop(
     [&](const Toks&) { RandomTools::verifDrawRecorder() = nullptr; },
     [&](const Toks& t) -> std::string {
+      struct Guard { Guard() { alarm(OP_TIMEOUT); } ~Guard() { alarm(0); } } guard;
       try { return op(t); }
       catch (IndexOutOfBoundsException&) { RandomTools::verifDrawRecorder() = nullptr; return "exc:index"; }
       catch (EmptyVectorException<int>&) { RandomTools::verifDrawRecorder() = nullptr; return "exc:empty"; }
